@@ -67,9 +67,8 @@ theorem c14_sc_queries {R : Type} (env : Env R) (s : State R) (qs : List Query) 
           · simp [List.getElem_set_ne hi]
   rw [key]; simp [List.map_map, Function.comp_def, Thread.init]
 
-/-- Every schedule that runs each thread long enough finishes it (no thread can be blocked by another:
-    the actions are total); stated for the round-robin-free simplest case of one thread run alone in
-    any state reached concurrently. -/
+/-- No thread can be blocked by another: the actions are total, and from ANY shared state reached
+    concurrently a started thread that is given `fuel` more actions of its own finishes. -/
 theorem c14_progress {R : Type} (env : Env R) (s : State R) (t : Thread R) (hs : t.pc ≠ .start) :
     (runThread env t.fuel s t).2.pc = .done :=
   runThread_done env _ s t hs (Nat.le_refl _)
